@@ -15,7 +15,10 @@
 //
 // Serving is INTERLEAVED with growth: after every committed block the whole grid so far is served and
 // checked on the running ledger, then the chain continues (serve -> commit -> serve), followed by the
-// final full grid and a close/reopen pass.
+// final full grid and a close/reopen pass. RESTART (close + reopen of the same directory) is also an event
+// of the history: every history over {E, X}^3 (quick) / ^4 (thorough) with every multiset of <= 2 restart
+// positions, and the 9-block chain with a restart at every single position; after a restart the grid is
+// served before any further commit, and again after every later block.
 // Oracle, for every chain, at every such round and after close/reopen, proofs obtained through the RPC handlers
 // (http/base/rpc GetCrossStatesProof / GetMerkleProof; for the parallel thorough chains through the
 // ledger.Ledger methods those handlers call):
@@ -228,7 +231,11 @@ func commitBlock(ch *polyenv.Chain, txs []*types.Transaction, viaSync bool) stor
 // mode: "submit" | "sync" | "alternate".
 // onBlock (optional) runs after EVERY committed block with bt.tip = the current height: proofs are served
 // while the chain keeps growing (serve -> commit -> serve again on the same running ledger).
-func build(tag string, rvec []int, mode string, onBlock func(b *built)) *built {
+// reopens: positions p (multiset, <= 2 entries = deviation bound 2) at which the ledger is closed and
+// reopened through the real restart path (NewLedgerStore + InitLedgerStoreWithGenesisBlock on the same
+// directory): p = 0 before any block, p = k after block k; the same p twice = two restarts in a row. After
+// each restart the grid is served BEFORE any further commit, then the history continues on the reopened ledger.
+func build(tag string, rvec []int, mode string, onBlock func(b *built, event string), reopens []int) *built {
 	vals := polyenv.Keys(4)
 	dir := polyenv.TmpDir("c08-")
 	tmpDirs.Store(dir, true)
@@ -251,14 +258,26 @@ func build(tag string, rvec []int, mode string, onBlock func(b *built)) *built {
 			setup = append(setup, approveSideChain(v, c.id))
 		}
 	}
-	commitBlock(ch, setup, via(1))
-	served := func() {
-		bt.tip = ch.L.GetCurrentBlockHeight()
+	served := func(event string) {
+		bt.tip = bt.ch.L.GetCurrentBlockHeight()
 		if onBlock != nil {
-			onBlock(bt)
+			onBlock(bt, event)
 		}
 	}
-	served()
+	restarts := func() {
+		pos := int(bt.ch.L.GetCurrentBlockHeight())
+		for i, p := range reopens {
+			if p == pos {
+				bt.reopen()
+				atomic.AddInt64(&nReopens, 1)
+				served(fmt.Sprintf("restart#%d-after-block-%d", i+1, pos))
+			}
+		}
+	}
+	restarts()
+	commitBlock(bt.ch, setup, via(1))
+	served("after-block-1")
+	restarts()
 	// record ids per block
 	nextID := 0
 	ids := map[uint32][]int{}
@@ -293,7 +312,7 @@ func build(tag string, rvec []int, mode string, onBlock func(b *built)) *built {
 		if (h+1)%2 == 1 {
 			txs = append(txs, prevotes(h+1)...)
 		}
-		res := commitBlock(ch, txs, via(h))
+		res := commitBlock(bt.ch, txs, via(h))
 		// collect the makeProof notifies: that is where a relayer learns the key
 		var got []rec
 		for _, n := range res.Notify {
@@ -317,10 +336,12 @@ func build(tag string, rvec []int, mode string, onBlock func(b *built)) *built {
 		if len(res.CrossHashes) != len(got) {
 			r.HarnessError("%s block %d: %d cross hashes for %d records", tag, h, len(res.CrossHashes), len(got))
 		}
-		served()
+		served(fmt.Sprintf("after-block-%d", h))
+		restarts()
 	}
-	commitBlock(ch, nil, via(uint32(L+2)))
-	served()
+	commitBlock(bt.ch, nil, via(uint32(L+2)))
+	served(fmt.Sprintf("after-block-%d", L+2))
+	restarts()
 	return bt
 }
 
@@ -396,7 +417,7 @@ func (s ledgerServer) block(h, rootH uint32) ([]byte, error) { return s.lg.GetMe
 // ---------------------------------------------------------------------------------------------
 // oracle
 
-var nCross, nBlockProofs, nInterleaved int64
+var nCross, nBlockProofs, nInterleaved, nReopens int64
 
 func (b *built) check(sv server, phase string) {
 	L := b.ch.L
@@ -659,21 +680,21 @@ func treeBuilders(maxN, workers int) {
 
 // ---------------------------------------------------------------------------------------------
 
-func runChain(tag string, rvec []int, mode string, useRPC bool) {
+func runChain(tag string, rvec []int, mode string, useRPC bool, reopens ...int) {
 	if useRPC {
 		defer polyenv.InstallHeightLedger()
 	}
 	// interleaving: after every committed block the whole grid so far (all cross-state proofs of blocks
 	// < tip, all block proofs h < r <= tip) is served and checked, then the chain continues
-	b := build(tag, rvec, mode, func(b *built) {
+	b := build(tag, rvec, mode, func(b *built, event string) {
 		var sv server = ledgerServer{ledger.VerifNewLedger(b.ch.L)}
 		if useRPC {
 			ledger.DefLedger = ledger.VerifNewLedger(b.ch.L) // also answers the height asked during execution
 			sv = rpcServer{}
 		}
-		b.check(sv, fmt.Sprintf("interleaved/after-block-%d", b.tip))
+		b.check(sv, "interleaved/"+event)
 		atomic.AddInt64(&nInterleaved, 1)
-	})
+	}, reopens)
 	defer b.close()
 	for _, phase := range []string{"live", "reopened"} {
 		if phase == "reopened" {
@@ -692,7 +713,7 @@ func runChain(tag string, rvec []int, mode string, useRPC bool) {
 			polyenv.InstallHeightLedger()
 		}
 	}
-	r.Sample(map[string]any{"chain": tag, "records_per_block": rvec, "mode": mode, "tip": b.tip})
+	r.Sample(map[string]any{"chain": tag, "records_per_block": rvec, "mode": mode, "tip": b.tip, "restarts_after_blocks": reopens})
 }
 
 func main() {
@@ -744,13 +765,61 @@ func main() {
 		}
 		wg.Wait()
 	}
+	{
+		// restart as an event of the history alphabet: every history over {E (no record), X (2 records)}^vl with
+		// every multiset of <= 2 restart positions (before any block, between blocks, twice in a row, at the end)
+		vl := r.QT(3, 4)
+		var wg sync.WaitGroup
+		sem := make(chan struct{}, 12)
+		run := func(tag string, rv []int, mode string, reopens ...int) {
+			if r.Expired() {
+				r.Capped("restart schedules")
+				return
+			}
+			wg.Add(1)
+			sem <- struct{}{}
+			chains++
+			go func() {
+				defer wg.Done()
+				defer func() { <-sem }()
+				runChain(tag, rv, mode, false, reopens...)
+			}()
+		}
+		modes := []string{"submit", "sync", "alternate"}
+		k := 0
+		for v := 0; v < 1<<uint(vl); v++ {
+			rv := make([]int, vl)
+			name := ""
+			for i := range rv {
+				if v&(1<<uint(i)) != 0 {
+					rv[i] = 2
+					name += "X"
+				} else {
+					name += "E"
+				}
+			}
+			last := vl + 2 // blocks: 1 (registration), 2..vl+1 (history), vl+2 (closing empty block)
+			for p := 0; p <= last; p++ {
+				run(fmt.Sprintf("restart/%s/at=%d", name, p), rv, modes[k%3], p)
+				k++
+				for q := p; q <= last; q++ {
+					run(fmt.Sprintf("restart/%s/at=%d,%d", name, p, q), rv, modes[k%3], p, q)
+					k++
+				}
+			}
+		}
+		for p := 0; p <= len(base)+2; p++ {
+			run(fmt.Sprintf("restart/base9/at=%d", p), base, modes[p%3], p)
+		}
+		wg.Wait()
+	}
 	if r.Thorough() {
 		long := make([]int, 40)
 		pat := []int{0, 1, 2, 3, 5, 0, 4, 1, 8, 7, 9, 16, 17, 0, 0, 31, 33, 6, 64, 65}
 		for i := range long {
 			long[i] = pat[i%len(pat)]
 		}
-		runChain("long40/alternate", long, "alternate", true)
+		runChain("long40/alternate", long, "alternate", true, 10, 25)
 		chains++
 	}
 	<-done
@@ -767,6 +836,8 @@ func main() {
 		"transitions":                   nCommits,
 		"traces_validated_against_impl": nCross + nBlockProofs,
 		"interleaved_serving_rounds":    nInterleaved,
+		"mid_history_restarts":          nReopens,
+		"restart_schedules":             fmt.Sprintf("every history over {E, X=2 records}^%d with every multiset of <=2 restart positions (0..%d); base 9-block chain with a restart at every single position", r.QT(3, 4), r.QT(3, 4)+2),
 		"cross_proofs_checked":          nCross,
 		"block_proofs_checked":          nBlockProofs,
 		"tree_builder_positions":        nTree,
